@@ -29,6 +29,87 @@ CLAIMED = {
              "recorded but not judged (the statement is silent); defaults are the documented ones.",
         technique="TLA+ spec (Config.tla) model-checked with TLC + TLC-judged traces of the real Configuration on TLC-generated cases",
     ),
+    'C01': {'design_ref': 'DESIGN.md §7 C01',
+ 'note': "Bounded: program families, configurations and fault sets as stated in the evidence (quick: ~5k runs, thorough: full product); the driver's generated "
+         'hooks/steps/formatter/reporter are the only instrumentation (public extension points); third-party parse/cucumber code is observed, not modelled.',
+ 'technique': 'TLA+ small-step spec of the run engine (Run.tla) + property clauses (Props_Run.tla) model-checked with TLC on every (program, cfg, fault set); '
+              'the same clauses judge TLC-validated traces of the real ModelRunner on exactly those inputs',
+ 'text': 'TLC explores Run.tla (explicit call stack of run_model/feature/rule/outline/scenario/step frames, failed_count propagation, hook_failures, undefined '
+         'steps, cleanups, abort) for every program of the bounded families x configuration x hook fault set and shows `verdict <=> something went wrong` '
+         '(wrong derived from source events only) at the end of every behaviour; each explored input is then run on the real ModelRunner, the recorded event '
+         'stream is judged by TLC with the same clauses (C01.false_green / false_red / crash), and full conformance of the observed event log with the '
+         "specification's prediction is measured."},
+    'C02': {'design_ref': 'DESIGN.md §7 C02',
+ 'note': "Bounded: program families, configurations and fault sets as stated in the evidence (quick: ~5k runs, thorough: full product); the driver's generated "
+         'hooks/steps/formatter/reporter are the only instrumentation (public extension points); third-party parse/cucumber code is observed, not modelled.',
+ 'technique': 'TLA+ small-step spec of the run engine (Run.tla) + property clauses (Props_Run.tla) model-checked with TLC on every (program, cfg, fault set); '
+              'the same clauses judge TLC-validated traces of the real ModelRunner on exactly those inputs',
+ 'text': 'Clauses C02.order / map / stop / rest / dry are invariants of Run.tla over the exhaustive `scen` family (every first-non-pass position x outcome x '
+         'background levels x plain/row x wip x dry x continue) and judged on the traces of the real runner: step functions identify themselves by their own '
+         'text, statuses are compared with the abstract outcome each step function realised.'},
+    'C03': {'design_ref': 'DESIGN.md §7 C03',
+ 'note': "Bounded: program families, configurations and fault sets as stated in the evidence (quick: ~5k runs, thorough: full product); the driver's generated "
+         'hooks/steps/formatter/reporter are the only instrumentation (public extension points); third-party parse/cucumber code is observed, not modelled.',
+ 'technique': 'TLA+ small-step spec of the run engine (Run.tla) + property clauses (Props_Run.tla) model-checked with TLC on every (program, cfg, fault set); '
+              'the same clauses judge TLC-validated traces of the real ModelRunner on exactly those inputs',
+ 'text': '(a) Status.tla: the status predicates and the three compute_status transcriptions are checked by TLC against the documented relation on ALL '
+         'child-status tuples up to length 3/4 over all 16 enum members, and real Scenario/Feature/Rule/ScenarioOutline objects are driven through every tuple '
+         'and judged; (b) C03.rollup judges every container of every real run (incl. stop/abort remainders, never-started features, de-selection, hook and '
+         'cleanup errors) against the documented relation, also as invariant of Run.tla.'},
+    'C09': {'design_ref': 'DESIGN.md §7 C09',
+ 'note': "Bounded: program families, configurations and fault sets as stated in the evidence (quick: ~5k runs, thorough: full product); the driver's generated "
+         'hooks/steps/formatter/reporter are the only instrumentation (public extension points); third-party parse/cucumber code is observed, not modelled.',
+ 'technique': 'TLA+ small-step spec of the run engine (Run.tla) + property clauses (Props_Run.tla) model-checked with TLC on every (program, cfg, fault set); '
+              'the same clauses judge TLC-validated traces of the real ModelRunner on exactly those inputs',
+ 'text': 'Tag selection is decided inside TLA+ (effective tags from parent pointers, expression node table): clauses C09.effective / exec_only_selected / '
+         'selected_runs / unselected_skipped / container_skipped / container_not_skipped hold on every behaviour of Run.tla and on the traces of the real '
+         'runner for tags at all five levels, 10 expressions in both dialects incl. wildcard, show_skipped and dry-run.'},
+    'C12': {'design_ref': 'DESIGN.md §7 C12',
+ 'note': "Bounded: program families, configurations and fault sets as stated in the evidence (quick: ~5k runs, thorough: full product); the driver's generated "
+         'hooks/steps/formatter/reporter are the only instrumentation (public extension points); third-party parse/cucumber code is observed, not modelled.',
+ 'technique': 'TLA+ small-step spec of the run engine (Run.tla) + property clauses (Props_Run.tla) model-checked with TLC on every (program, cfg, fault set); '
+              'the same clauses judge TLC-validated traces of the real ModelRunner on exactly those inputs',
+ 'text': "EVERY hook invocation of the fault-free run is an injection point (plus pairs): Run.tla models run_hook's containment and attribution; clauses "
+         'C12.nesting (bracket discipline incl. tag hooks), after_paired, contained, marks_element, run_fails, body_suppressed, before_all_aborts, '
+         'not_for_skipped, not_in_dry_run are TLC invariants over all fault positions and judge the traces of the real runner with the fault injected at the '
+         'same position.'},
+    'C18': {'design_ref': 'DESIGN.md §7 C18',
+ 'note': "Bounded: program families, configurations and fault sets as stated in the evidence (quick: ~5k runs, thorough: full product); the driver's generated "
+         'hooks/steps/formatter/reporter are the only instrumentation (public extension points); third-party parse/cucumber code is observed, not modelled.',
+ 'technique': 'TLA+ small-step spec of the run engine (Run.tla) + property clauses (Props_Run.tla) model-checked with TLC on every (program, cfg, fault set); '
+              'the same clauses judge TLC-validated traces of the real ModelRunner on exactly those inputs',
+ 'text': 'Run.tla models the per-scenario capture buffer and the real streams per switch; clauses C18.restored / no_leak / passthrough / report_exact / '
+         'pass_silent / logging_restored hold on every behaviour and are judged on real runs whose steps and step hooks print unique markers to stdout, stderr '
+         'and logging under all 8 switch combinations, with outcomes incl. KeyboardInterrupt and hook errors.'},
+    'C06': {'design_ref': 'DESIGN.md §7 C06',
+ 'note': 'Bounded as in the evidence; cells with angle brackets, unknown placeholders in tags and tag-unsafe cell values are outside the judged domain '
+         '(statement silent).',
+ 'technique': 'TLA+ spec (Outline.tla) model-checked with TLC + TLC-judged traces of the real parser/ScenarioOutline on TLC-generated outlines',
+ 'text': "Outline.tla puts the code's sequential per-column replace, make_row_tags, annotation schema and the _scenarios/modified cache machine next to the "
+         'definitional simultaneous substitution; TLC proves them equal on every outline of the bound (2 blocks x 2 rows x 2 columns in both orders, 4 cell '
+         "values incl. the other column's name, placeholders at every position class) and over Access/AddRow/AddColumn histories; every case is rendered to "
+         'feature text, parsed and expanded by the real code, snapshotted before/after, and judged by TLC against the definition.'},
+    'C08': {'design_ref': 'DESIGN.md §7 C08',
+ 'note': 'v1 tag names exclude v2 keywords, wildcard and separator characters; two known findings (`a:3`, escaped blank) are listed in known_findings.json.',
+ 'technique': 'TLA+ spec (TagExprV1.tla) model-checked with TLC + TLC-judged traces of the real parser on TLC-generated renderings',
+ 'text': 'TagExprV1.tla transcribes v1.py and _select_tag_expression_parser4auto; TLC proves on the complete truth table that the v1 algorithm equals the CNF '
+         "definition and that auto-detection gives every pure-v1 / pure-v2 rendering its own dialect's meaning and rejects mixed texts, for all CNF formulas "
+         'of the bound in 5 styles x 2 input shapes; every rendering is run through the real make_tag_expression under V1, V2 and AUTO_DETECT and judged by '
+         'TLC.'},
+    'C10': {'design_ref': 'DESIGN.md §7 C10',
+ 'note': 'Bounded layouts (<=5/7 entities); lines above the feature, glob entries and directories are not judged (statement silent).',
+ 'technique': 'TLA+ spec (Select.tla) model-checked with TLC + TLC-judged traces of the real location/name selection on TLC-generated layouts',
+ 'text': "Select.tla defines Nearest(line) and puts the code's sorted-lines + bisect, collector, parse_features grouping, list-file parser and name selection "
+         'next to it; TLC proves bisect == Nearest for EVERY line 0..last+3 of every layout of the bound, the union law, line 0 => all and the setup/teardown '
+         'exemption; each layout is rendered to real files and parse_features / collect_feature_locations / Configuration(--name) are run for every line, '
+         'location multisets, list files and name patterns, judged by TLC against the definition.'},
+    'C19': {'design_ref': 'DESIGN.md §7 C19',
+ 'note': "Custom negative prefixes start with 'not'; separators =, :, ==; disagreeing composite members and ignore_unknown_categories=False are recorded, not "
+         'judged.',
+ 'technique': 'TLA+ spec (ActiveTags.tla) model-checked with TLC + TLC-judged traces of the real matcher on TLC-generated tag lists',
+ 'text': "ActiveTags.tla states the property's per-category formula and the code's algorithm (schema regex, grouping, value objects, providers with cache, "
+         'composite matcher); TLC proves algorithm == definition on every tag list of <=3/4 tags from a 30-tag pool x 9 current-value combinations; every list '
+         'is replayed on real ActiveTagMatcher objects under 19 provider/matcher configurations and judged by TLC with the definitional formula only.'},
 }
 
 PENDING_REASON = "check not built yet in this round (planned with the same TLA+/TLC technique, see DESIGN.md §7); not claimed until its check exists"
